@@ -33,7 +33,7 @@ def vref(alias):
 def bounds(tier):
     if tier == 'quick':
         return {'trace_len': 3, 'max_width': 3, 'other_width': 2, 'trace_budget': 60000, 'time_bounds_s': (1.0,)}
-    return {'trace_len': 5, 'max_width': 3, 'other_width': 2, 'trace_budget': 1500000, 'time_bounds_s': (1.0, 2.0)}
+    return {'trace_len': 5, 'max_width': 3, 'other_width': 2, 'trace_budget': 800000, 'time_bounds_s': (1.0, 2.0)}
 
 
 SPLIT_TOPICS = ('a', 'b', 'c')
